@@ -1,7 +1,7 @@
 #!/bin/sh
 # run every check's thorough tier once (on the current tree); print one line per check
 cd "$(dirname "$0")/.." || exit 2
-for p in C02 C03 C04 C05 C06 C07 C08 C12 C13 C14 C18 C19 C20 C01; do
+for p in C18 C19 C20 C03 C04 C05 C06 C07 C08 C12 C13 C14 C01 C02; do
   start=$(date +%s)
   out=$(VERIF_SEED=${VERIF_SEED:-0} timeout 7200 ./check $p --tier thorough 2>&1); rc=$?
   end=$(date +%s)
